@@ -18,7 +18,7 @@ RULE = (
     "point or one assembly order; distinct = (n, n_chunks[, order]); non-trivial = at least one pair (n>=2)"
 )
 ASSUMPTIONS = ["thetas in the assembly workload are harness stubs with prescribed predictions plus real sparse-combo samples"]
-REQUIRED = {"assemblies_by_random_bracketing": {"quick": 60, "thorough": 800}, "cli_score_assemblies": {"quick": 8, "thorough": 60}, "chunk_files_overwritten": {"quick": 200, "thorough": 3000}, "partition_grid_points": {"quick": 500, "thorough": 1800}, "assemblies_checked": {"quick": 150, "thorough": 2000}, "refusals_checked": {"quick": 50, "thorough": 500}, "large_matrix_roundtrips": {"quick": 8, "thorough": 80}, "cli_matrices_checked": {"quick": 6, "thorough": 50}}
+REQUIRED = {"chunked_large_matrices_n_257": {"quick": 1, "thorough": 1}, "assemblies_by_random_bracketing": {"quick": 60, "thorough": 800}, "cli_score_assemblies": {"quick": 8, "thorough": 60}, "chunk_files_overwritten": {"quick": 200, "thorough": 3000}, "partition_grid_points": {"quick": 500, "thorough": 1800}, "assemblies_checked": {"quick": 150, "thorough": 2000}, "refusals_checked": {"quick": 50, "thorough": 500}, "large_matrix_roundtrips": {"quick": 8, "thorough": 80}, "cli_matrices_checked": {"quick": 6, "thorough": 50}}
 N_EXH = {"quick": 14, "thorough": 22}  # grid sizes 548 / 1900 points
 
 
@@ -339,9 +339,11 @@ def large_matrices(rec, tier, rng, DC, tmp, shard):
         rec.check(kit.bytes_equal(dense, ref), "C07/assembly/entry-misplaced-after-save-load", lambda: "a %d x %d matrix differs after save/load (%d entries differ)" % (n, n, int((dense != ref).sum())), w)
         rec.check(bool(np.all(np.diag(dense) == 0)) and kit.bytes_equal(dense, dense.T.copy()), "C07/assembly/not-symmetric-zero-diagonal", "loaded %d x %d matrix not symmetric / zero diagonal" % (n, n), w)
         os.remove(fn)
-    if tier == "thorough" or shard == 0:
-        # two chunks of a 130-sample matrix, saved, loaded, combined in both orders
-        n = 130
+    if tier == "thorough" or shard < 3:
+        # chunks of a matrix of 130 / 257 / 300 samples (past every small-integer and one-byte boundary), saved,
+        # loaded, combined in both orders and with an in-memory chunk on either side
+        n = [130, 257, 300][shard % 3]
+        rec.count("chunked_large_matrices_n_%d" % n)
         vals = rng.random((n, n))
         ref = np.tril(vals, -1)
         ref = ref + ref.T
@@ -362,6 +364,22 @@ def large_matrices(rec, tier, rng, DC, tmp, shard):
                 continue
             rec.count("large_matrix_roundtrips")
             rec.check(kit.bytes_equal(dense, ref), "C07/assembly/order-dependent", "two chunks of a %d-sample matrix do not assemble to the reference (order %r)" % (n, order), {"n": n})
+        # one operand loaded from its file, the other still in memory
+        mem = []
+        for c in range(2):
+            ch = DC.ChunkedDistanceMatrix(size=n, n_chunks=2, chunk_index=c)
+            for (i, j) in DC.get_lower_triangular_indices_chunk(n, c, 2):
+                ch.add_value(i, j, float(vals[i, j]))
+            mem.append(ch)
+        for a_, b_, what in ((DC.ChunkedDistanceMatrix.load(files[0]), mem[1], "loaded + in-memory"), (mem[0], DC.ChunkedDistanceMatrix.load(files[1]), "in-memory + loaded")):
+            rec.case(("large-mixed", n, what))
+            try:
+                dense = a_.combine(b_).to_dense()
+            except Exception as e:
+                rec.violation("C07/assembly/concat-raises", "combine (%s) of two chunks of a %d-sample matrix raised %r" % (what, n, e), {"n": n})
+                continue
+            rec.count("large_matrix_roundtrips")
+            rec.check(kit.bytes_equal(dense, ref), "C07/assembly/order-dependent", "two chunks of a %d-sample matrix (%s) do not assemble to the reference" % (n, what), {"n": n})
 
 
 def coverage_extra(tier, counters):
